@@ -89,15 +89,21 @@ def build_ref():
     os.makedirs(d, exist_ok=True)
     src = os.path.join(REPO, 'resources/code/decay0/decay0_2020-04-20.for')
     deps = [src] + [os.path.join(ROOT, 'ref', f) for f in ('prep_reference.py', 'mkdict.py', 'refglue.f', 'shim_c.c')]
-    hv = file_hash(deps, ' '.join(FFLAGS))
+    hv = file_hash(deps, ' '.join(FFLAGS) + 'so-v3')
     stamp = os.path.join(d, 'stamp')
     if os.path.exists(stamp) and open(stamp).read() == hv:
         return d
     sh(['python3', os.path.join(ROOT, 'ref/prep_reference.py'), src, os.path.join(d, 'decay0_ref.f')])
+    sh(['python3', os.path.join(ROOT, 'ref/prep_reference.py'), src, os.path.join(d, 'decay0_refh.f'), '--harmonise'])
     sh(['python3', os.path.join(ROOT, 'ref/mkdict.py'), os.path.join(d, 'decay0_ref.f'), os.path.join(d, 'refdict.inc')])
-    sh(['gfortran-12'] + FFLAGS + ['-c', os.path.join(d, 'decay0_ref.f'), '-o', os.path.join(d, 'decay0_ref.o')])
-    sh(['gfortran-12'] + FFLAGS + ['-c', os.path.join(ROOT, 'ref/refglue.f'), '-o', os.path.join(d, 'refglue.o')])
-    sh(['gcc', '-O1', '-g', '-c', os.path.join(ROOT, 'ref/shim_c.c'), '-o', os.path.join(d, 'shim_c.o')])
+    sh(['gfortran-12'] + FFLAGS + ['-fPIC', '-c', os.path.join(ROOT, 'ref/refglue.f'), '-o', os.path.join(d, 'refglue.o')])
+    sh(['gcc', '-O1', '-g', '-fPIC', '-c', os.path.join(ROOT, 'ref/shim_c.c'), '-o', os.path.join(d, 'shim_c.o')])
+    # each flavour of the reference lives in its own shared object (loaded RTLD_LOCAL, linked -Bsymbolic) so that its
+    # static storage can be snapshotted/restored and the two flavours do not share common blocks
+    for fl in ('decay0_ref', 'decay0_refh'):
+        sh(['gfortran-12'] + FFLAGS + ['-fPIC', '-c', os.path.join(d, fl + '.f'), '-o', os.path.join(d, fl + '.o')])
+        sh(['gfortran-12', '-shared', '-Wl,-Bsymbolic', '-Wl,-z,now', '-o', os.path.join(d, 'lib' + fl + '.so'), os.path.join(d, fl + '.o'),
+            os.path.join(d, 'refglue.o'), os.path.join(d, 'shim_c.o'), '-lgsl', '-lgslcblas', '-lm'])
     open(stamp, 'w').write(hv)
     return d
 
@@ -132,7 +138,7 @@ def compile_bin(name, srcs, variant, ref=False, extra=None, libs=None, link_lib=
         cmd += ['-I', refd]
     cmd += srcs
     if refd:
-        cmd += [os.path.join(refd, f) for f in ('decay0_ref.o', 'refglue.o', 'shim_c.o')] + ['-lgfortran']
+        cmd += ['-rdynamic', '-ldl', '-DREFDIR_DEFAULT="%s"' % refd]
     if link_lib:
         cmd += ['-L', bdir, '-lBxDecay0', '-Wl,-rpath,' + bdir]
     cmd += ['-lgsl', '-lgslcblas', '-lm', '-lpthread'] + (libs or []) + ['-o', out]
